@@ -147,7 +147,9 @@ def apply_edit(content, edit, sel, value, name):
         idx = [i for i, (a, v) in enumerate(r["attrs"]) if a not in formal_names and v[0] in ("uri", "qn")]
         i = idx[sel[1] % len(idx)]
         a, v = r["attrs"][i]
-        r["attrs"][i] = [a, ["qn" if v[0] == "uri" else "uri", v[1]]]
+        # the same URI text under another value kind: anyURI <-> qualified name <-> plain string spelling the URI
+        kinds = [k for k in ("uri", "qn", "str") if k != v[0]]
+        r["attrs"][i] = [a, [kinds[sel[2] % 2], v[1]]]
     elif edit == "alter_value":
         r = pick(lambda r: any(a not in formal_names for a, _ in r["attrs"]))
         if r is None:
